@@ -49,6 +49,26 @@ pub enum Kind {
     CursorStore = 11,
     /// Compare-exchange on `BlockQueue::cursor` (each CAS of the `fetch_update` loop).
     CursorCas = 12,
+    /// Scheduler protocol (class `Sched`): a packet is about to be pushed to a bucket queue.
+    BucketAdd = 20,
+    /// A bucket is about to be opened.
+    BucketOpen = 21,
+    /// A bucket is about to be closed.
+    BucketClose = 22,
+    /// A worker is about to take packets from a bucket that looks non-empty.
+    BucketPoll = 23,
+    /// A worker starts scanning the buckets for work.
+    PollBegin = 24,
+    /// A sentinel packet is about to be set / taken.
+    Sentinel = 25,
+    /// A designated packet is about to be pushed / popped / looked for.
+    Designated = 26,
+    /// The GC trigger's request flag is about to be read / swapped / cleared.
+    RequestFlag = 27,
+    /// A worker is about to push to its local queue / steal from another worker's.
+    LocalQueue = 28,
+    /// A worker thread is about to give its `GCWorker` back / a scheduler-level decision point.
+    SchedOther = 29,
     /// Anything else (free for future call sites).
     Other = 13,
 }
@@ -63,6 +83,8 @@ pub enum Class {
     Pool = 1,
     /// Mutexes and condition variables (sync shim): armed as a whole.
     Sync = 2,
+    /// Work-packet scheduler protocol points: armed as a whole.
+    Sched = 4,
     /// Everything else.
     Other = 3,
 }
@@ -77,6 +99,16 @@ impl Kind {
             | Kind::CursorLoad
             | Kind::CursorStore
             | Kind::CursorCas => Class::Pool,
+            Kind::BucketAdd
+            | Kind::BucketOpen
+            | Kind::BucketClose
+            | Kind::BucketPoll
+            | Kind::PollBegin
+            | Kind::Sentinel
+            | Kind::Designated
+            | Kind::RequestFlag
+            | Kind::LocalQueue
+            | Kind::SchedOther => Class::Sched,
             Kind::Other => Class::Other,
         }
     }
@@ -86,6 +118,7 @@ impl Kind {
         !matches!(
             self,
             Kind::AtomicLoad | Kind::PoolCountLoad | Kind::CursorLoad
+                | Kind::PollBegin
         )
     }
 }
@@ -140,6 +173,18 @@ pub trait Runtime: Send + Sync {
     fn cond_notify(&self, cv: usize, all: bool);
     /// Optional event log.
     fn event(&self, name: &'static str, a: usize, b: usize);
+    /// Optional event log entry that carries a static string (e.g. a work packet type name).
+    fn event_str(&self, _name: &'static str, _tag: &'static str, _a: usize, _b: usize) {}
+    /// Whether the calling thread is scheduled by the runtime and operations of `class` are
+    /// modelled for it (used by the `sync` shim to choose between logical and real waiting).
+    fn controls(&self, _class: Class) -> bool {
+        false
+    }
+    /// `try_lock` of a logical mutex: `Some(acquired)` if the runtime models the lock for the
+    /// calling thread, `None` if the caller must use the real `try_lock`.
+    fn lock_try_acquire(&self, _id: usize, _mode: LockMode) -> Option<bool> {
+        None
+    }
 }
 
 static RUNTIME: OnceLock<&'static dyn Runtime> = OnceLock::new();
@@ -208,6 +253,32 @@ pub fn cond_notify(cv: usize, all: bool) {
 pub fn event(name: &'static str, a: usize, b: usize) {
     if let Some(rt) = RUNTIME.get() {
         rt.event(name, a, b)
+    }
+}
+
+/// See [`Runtime::event_str`].
+#[inline]
+pub fn event_str(name: &'static str, tag: &'static str, a: usize, b: usize) {
+    if let Some(rt) = RUNTIME.get() {
+        rt.event_str(name, tag, a, b)
+    }
+}
+
+/// See [`Runtime::controls`].
+#[inline]
+pub fn controls(class: Class) -> bool {
+    match RUNTIME.get() {
+        Some(rt) => rt.controls(class),
+        None => false,
+    }
+}
+
+/// See [`Runtime::lock_try_acquire`].
+#[inline]
+pub fn lock_try_acquire(id: usize, mode: LockMode) -> Option<bool> {
+    match RUNTIME.get() {
+        Some(rt) => rt.lock_try_acquire(id, mode),
+        None => None,
     }
 }
 
